@@ -1123,16 +1123,19 @@ where
         if let Some(comments) = &self.comments {
             comments.with_leading(span.lo, |comments| {
                 let pragma = comments.iter().find_map(|comment| {
-                    let trimmed = comment.text.trim();
-                    trimmed
-                        .strip_prefix('*')
-                        .unwrap_or(trimmed)
-                        .trim()
-                        .strip_prefix("@jsx")
-                        // `@jsxImportSource`, `@jsxRuntime`, `@jsxFrag` are other annotations
-                        .filter(|rest| rest.starts_with(char::is_whitespace))
-                        .and_then(|rest| rest.split_whitespace().next())
-                        .filter(|name| Ident::verify_symbol(name).is_ok())
+                    // the annotation may sit on any line of a block comment (`/**\n * @jsx h\n */`)
+                    comment.text.lines().find_map(|line| {
+                        let trimmed = line.trim();
+                        trimmed
+                            .strip_prefix('*')
+                            .unwrap_or(trimmed)
+                            .trim()
+                            .strip_prefix("@jsx")
+                            // `@jsxImportSource`, `@jsxRuntime`, `@jsxFrag` are other annotations
+                            .filter(|rest| rest.starts_with(char::is_whitespace))
+                            .and_then(|rest| rest.split_whitespace().next())
+                            .filter(|name| Ident::verify_symbol(name).is_ok())
+                    })
                 });
                 if let Some(pragma) = pragma {
                     self.pragma = Some(pragma.to_string());
